@@ -312,7 +312,7 @@ func digest() string {
 
 // conc: ungated goroutines for one sharing configuration.
 func conc(share string, n, rounds int) {
-	master := basePolicy(1)
+	master := basePolicy(3) // (the one with a big listing in front of further groups)
 	want, _ := compileBytes(&master)
 	masterSnap := snap(&master)
 	pols := make([]seccomp.Policy, n)
